@@ -66,6 +66,7 @@ func runC12(c *Config, r *Report) {
 	c01R42(ic, r, "R12.37")
 	c12R36(ic, r)
 	c12R38(ic, r)
+	c03R25(ic, r, "R12.39")
 	{
 		// R12.31 = R01.37 (b), (c): break and continue outside of a loop of the same function are rejected
 		sub := newReport("C01")
